@@ -1,2 +1,86 @@
+"""C12, the .device clause: an unknown device is an error, a second selection is an error, and what is stored is the table's row."""
+import re
+
+import absint
+import sx
+
+
 def device_directive(P, rep):
-    pass
+    import rules_C08 as C8
+    fn = "directive::Directive::parse"
+    if fn not in P.body:
+        rep.unprovable("C12.device|anchor", "Directive::parse not found")
+        return
+    dv = C8.dvariants(P)
+    inv = {n: d for d, n in dv.items()}
+    if "Device" not in inv:
+        rep.unprovable("C12.device|anchor", "Directive::Device not found")
+        return
+    M = absint.Machine(P, max_depth=4, opaque={"expr::Expr::run", "parser::parse_file_internal"})
+    paths = M.explore(fn, M.arg_unknowns(fn), doms={sx.S("self*#d", 64, True): sx.dom_set([inv["Device"]])})
+    rep.count("paths of the .device arm", len(paths))
+    if M.capped or M.unsupported or any(p.exit not in ("Ok", "Err") for p in paths):
+        rep.unprovable("C12.device|explore", "exploration of the .device arm incomplete: %s %s" % (M.unsupported[:2], sorted({p.exit for p in paths})))
+        return
+    oks = [p for p in paths if p.exit == "Ok"]
+    errs = [p for p in paths if p.exit == "Err"]
+
+    def facts(p):
+        lookup = None          # True: found in the table, False: not found
+        stored_differs = False
+        stored_none = False
+        for e, t in p.conds:
+            sh = sx.show(e)
+            m = re.match(r"^\((.*)#d == (\d+)\)$", sh)
+            if m and "HashMap::<K, V, S, A>::get(static device::DEVICES" in m.group(1) and ":Some" not in m.group(1).split("get(", 1)[1].rsplit(")", 1)[-1]:
+                found = (m.group(2) == "1") == t
+                lookup = found
+            if m and m.group(1).endswith("common_context.device.rc.cell"):
+                is_none = (m.group(2) == "0") == t
+                stored_none = stored_none or is_none
+            if ".device.rc.cell:Some.0." in sh:
+                # comparisons of the stored device with the defaults: `field == const` that is false, or a set comparison that is false
+                eqform = re.search(r" == 0x[0-9a-f]+\)$| == \d+\)$", sh) is not None
+                if "PartialEq>::eq(" in sh or "PartialEq>::ne(" in sh:
+                    # value of the eq call compared with 0/1
+                    m2 = re.search(r"\)(?:@\d+)? == (\d)\)$", sh)
+                    val = t if m2 is None else ((m2.group(1) == "1") == t)
+                    if "PartialEq>::ne(" in sh:
+                        val = not val
+                    if not val:
+                        stored_differs = True
+                elif eqform and not t:
+                    stored_differs = True
+        return lookup, stored_none, stored_differs
+
+    bad_ok = []
+    replaced_ok = True
+    for p in oks:
+        lookup, stored_none, differs = facts(p)
+        reps = [e for e in p.events if e[0] == 'call' and e[1] == "std::cell::RefCell::<T>::replace" and "common_context.device" in str(e[2][0])]
+        if lookup is not True:
+            bad_ok.append("the directive succeeds although the name was not found in the device table")
+        if differs:
+            bad_ok.append("the directive succeeds although a device other than the default is already selected")
+        if len(reps) != 1:
+            replaced_ok = False
+            bad_ok.append("a successful .device does not store exactly one device (%d stores)" % len(reps))
+        else:
+            val = str(reps[0][2][1])
+            if not (val.startswith("Option::Some(") and "get(static device::DEVICES" in val and ":Some.0" in val):
+                replaced_ok = False
+                bad_ok.append("the stored device is %s, not the row found in the table" % val[:80])
+    unknown_err = any(facts(p)[0] is False for p in errs)
+    second_err = sum(1 for p in errs if facts(p)[2])
+    rep.ob("C12.device|unknown", unknown_err and not any("not found" in x for x in bad_ok),
+           "a name that is not in the device table fails the build" if unknown_err and not any("not found" in x for x in bad_ok) else
+           "an unknown device name does not fail the build")
+    okk = second_err >= 1 and not any("already selected" in x for x in bad_ok)
+    rep.ob("C12.device|second", okk, "a second .device (the stored device differs from the defaults in any field: %d error paths) fails the build" % second_err if okk else
+           ([x for x in bad_ok if "already selected" in x] or ["no error path for a device that is already selected"])[0])
+    okr = bool(oks) and replaced_ok
+    rep.ob("C12.device|stored-row", okr, "a successful .device stores a copy of the table row that was looked up, once" if okr else
+           ([x for x in bad_ok if "store" in x] or ["no successful path"])[0])
+    # the name that is looked up is the directive's operand
+    okn = bool(oks) and all(any(e[0] == 'call' and e[1].endswith("HashMap::<K, V, S, A>::get") and "opts*" in str(e[2][1]) for e in p.events) for p in oks)
+    rep.ob("C12.device|operand", okn, "the name looked up is the directive's operand" if okn else "the device name looked up is not taken from the directive's operand")
